@@ -186,7 +186,7 @@ def random_space(rng, nenv, max_cells=4, graph=None):
 
 
 def random_model(rng, max_species=3, max_reactions=2, max_cells=4, max_order=3, max_mol=6, graph=None,
-                 multigraph=False, chem_p=0.25):
+                 multigraph=False, chem_p=0.25, big_p=0.0):
     ns = rng.randint(1, max_species)
     labels = LABELS[:ns]
     envs = ["a", "b"] if rng.random() < 0.6 else ["a"]
@@ -215,6 +215,8 @@ def random_model(rng, max_species=3, max_reactions=2, max_cells=4, max_order=3, 
     m = Model(species, reactions, envs, space, None)
     nc = m.ncells()
     m.state = [[rng.choice([0, 0, 1, 2, 3, max_mol]) for _ in range(nc)] for _ in labels]
+    if big_p and rng.random() < big_p:      # one entry above the Poisson / normal switch of the initial-state redistribution
+        m.state[rng.randrange(len(labels))][rng.randrange(nc)] = rng.choice([100, 137, 250])
     if rng.random() < 0.3:      # explicit per-entry chemostat map (any subset of entries)
         m.chem = [[int(rng.random() < 0.3) for _ in range(nc)] for _ in labels]
     return m
